@@ -1,7 +1,7 @@
 (** C08 -- the invariant holds after every sequence of edits (induction over the sequence). *)
 From Coq Require Import Ascii String List Bool PArith NArith FMapPositive Permutation Lia.
 From PTBase Require Import Exn PyStr.
-From P Require Import Assoc GridEdit GridLemmas Inv InvRock InvBlock InvConn InvRename InvReorder InvMinc InvAdd InvEmbed.
+From P Require Import Assoc GridEdit GridLemmas Inv InvRock InvBlock InvConn InvRename InvReorder InvMinc InvAdd InvEmbed InvAfter.
 Import ListNotations.
 Open Scope list_scope.
 
@@ -17,6 +17,8 @@ Definition pre (g : grid) (o : op) : Prop :=
   | Reorder bns cns =>                             (* the call names every block / connection exactly once *)
       forall g', reorder g bns cns = Ok g' ->
                  Permutation (blist g) (blist g') /\ Permutation (clist g) (clist g')
+  | RenameFix m =>                                 (* the same, of the map as fix_block_mapping rewrites it *)
+      forall m', fix_block_mapping m = Ok m' -> inj_on_blocks g m'
   | AddGrid h other_first =>                       (* the other grid is consistent; a block that the sum replaces is unconnected *)
       Inv (with_view g h) /\
       (if other_first then replaced_blocks_unconnected g h (view_of g) else replaced_blocks_unconnected g (view_of g) h)
@@ -37,6 +39,8 @@ Proof.
   - eapply delete_connection_inv; eauto.
   - eapply rename_blocks_inv; eauto.
   - destruct (P g' H) as [Pb Pc]. eapply reorder_inv; eauto.
+  - unfold rename_blocks_fix in H. destruct (fix_block_mapping m) as [m'|] eqn:F; cbn [bind] in H; [|discriminate].
+    eapply rename_blocks_inv; eauto.
   - eapply minc_inv; eauto.
   - destruct P as [Ih S]. destruct other_first.
     + apply (grid_add_inv g h (view_of g) g'); [exact Ih|rewrite with_view_of; exact I|exact S|exact H].
@@ -67,6 +71,21 @@ Qed.
 
 Corollary inv_reachable_init ops g' : pre_all empty ops -> run empty ops = Ok g' -> Inv g'.
 Proof. apply inv_reachable. exact inv_init. Qed.
+
+(** ** the caller catches the exceptions: a refused edit leaves the grid as [after] says, and the sequence goes on.
+    Every edit of the sequence meets [pre] (and a reorder that will be refused still names every block once). *)
+Fixpoint pre_on (g : grid) (ops : list op) : Prop :=
+  match ops with
+  | [] => True
+  | o :: r => pre g o /\ pre_after g o /\ pre_on (match step g o with Ok g1 => g1 | Raise _ => after g o end) r
+  end.
+Theorem inv_reachable_on ops : forall g, Inv g -> pre_on g ops -> Inv (run_on g ops).
+Proof.
+  induction ops as [|o r IH]; cbn [run_on pre_on]; intros g I P; [exact I|].
+  destruct P as [P0 [Pa P1]]. destruct (step g o) as [g1|e] eqn:E.
+  - apply IH; [eapply step_inv; eauto|exact P1].
+  - apply IH; [eapply after_inv; eassumption|exact P1].
+Qed.
 
 (** the same with the run written as a left fold over the op list *)
 Definition run_fold (g : grid) (ops : list op) : res grid :=
